@@ -52,6 +52,11 @@ void prepareInputs(Ctx& ctx, const Scenario& sc) {
         return;
     }
     const unsigned long wmask = sc.isFloat() ? ((1UL << 22) - 1) : ~0UL;   // weights must be exact in the tree's real type
+    if (sc.kernel == "weight_s35") {   // weight derived from the original index inside the kernel: same function for both trees
+        for (size_t i = 0; i < sc.src.size(); ++i) ctx.inputs[0].push_back({{sc.src[i][0], sc.src[i][1], sc.src[i][2], double(wkWeight(sc.runKey, 0, long(i)))}});
+        for (size_t i = 0; i < sc.tgt.size(); ++i) ctx.inputs[1].push_back({{sc.tgt[i][0], sc.tgt[i][1], sc.tgt[i][2], double(wkWeight(sc.runKey, 0, long(i)))}});
+        return;
+    }
     for (size_t i = 0; i < sc.src.size(); ++i)
         ctx.inputs[0].push_back({{sc.src[i][0], sc.src[i][1], sc.src[i][2], double((wkWeight(sc.runKey, 0, long(i)) & wmask) | 1UL)}});
     for (size_t i = 0; i < sc.tgt.size(); ++i)
@@ -105,7 +110,7 @@ void doExecute(RunState& rs, IWorld& w, const HistOp& op, bool simulate, const s
     if (rs.maxThreadsSeen == 0) rs.maxThreadsSeen = rs.sc.threadsCtor;
     const bool kernelGrowth = simulate && ctx.sim.maxThreads > rs.maxThreadsSeen;
     if (simulate && ctx.sim.maxThreads > rs.maxThreadsSeen) rs.maxThreadsSeen = ctx.sim.maxThreads;
-    const bool balanceApplies = !kernelGrowth && (rs.sc.kernel == "weight" || rs.sc.kernel == "weight_float" || rs.sc.kernel == "test");
+    const bool balanceApplies = !kernelGrowth && (rs.sc.kernel.rfind("weight", 0) == 0 || rs.sc.kernel == "test");
     const long live0 = liveAllocations();
     setStage(simulate ? "task-execute" : "seq-execute");
     w.execute(op.flags);
@@ -215,7 +220,7 @@ void recipeExec(RunState& rs) {
     runHistory(rs, *twin, sc.history, false, "twin");
 
     // reference evaluation (WeightKernel layout only, no periodic images): attribution, and the C09 oracle
-    const bool weightLayout = (tw.kernel == "weight" || tw.kernel == "weight_float");
+    const bool weightLayout = (tw.kernel == "weight" || tw.kernel == "weight_float" || tw.kernel == "weight_s62");
     bool hasTop = false;
     for (const HistOp& op : sc.history) if (op.op == "top") hasTop = true;
     if (weightLayout && !hasTop) {
@@ -363,10 +368,11 @@ void checkAfterRebuild(RunState& rs, IWorld& w, const std::map<std::pair<int, lo
             const long oi = l.indexes[i];
             if (oi < 0 || oi >= long(ctx.inputs[l.tree].size())) { ctx.addViolation("rebuild:identity", "index-range", "particle index " + std::to_string(oi) + " out of range after rebuild"); continue; }
             seen[std::make_pair(l.tree, oi)] += 1;
-            for (size_t k = 0; k < l.data.size() && k < 4; ++k) {
+            for (size_t k = 0; k < l.data.size(); ++k) {
                 bool same;
-                if (v.dataElem == sizeof(float)) { float f; std::memcpy(&f, l.data[k] + size_t(i) * sizeof(float), sizeof f); same = (f == float(ctx.inputs[l.tree][size_t(oi)][k])); }
-                else { double d; std::memcpy(&d, l.data[k] + size_t(i) * sizeof(double), sizeof d); same = std::memcmp(&d, &ctx.inputs[l.tree][size_t(oi)][k], sizeof d) == 0; }
+                const double expect = k < 4 ? ctx.inputs[l.tree][size_t(oi)][k] : ctx.extraData(oi, k);
+                if (v.dataElem == sizeof(float)) { float f; std::memcpy(&f, l.data[k] + size_t(i) * sizeof(float), sizeof f); same = (f == float(expect)); }
+                else { double d; std::memcpy(&d, l.data[k] + size_t(i) * sizeof(double), sizeof d); same = std::memcmp(&d, &expect, sizeof d) == 0; }
                 if (!same) {
                     ctx.addViolation("rebuild:data", k < 3 ? "position" : "data-value", "particle " + std::to_string(oi) + ": value " + std::to_string(k) + " differs from the edited particle after rebuild");
                     break;
